@@ -152,7 +152,7 @@ class CacheHarness:
         self.A = A
         self.execute = execute or simrt.execute      # Engine B passes its own
 
-    def run(self, scen, strategy, inject=None, max_steps=60000):
+    def run(self, scen, strategy, inject=None, max_steps=60000, delays=None):
         """inject: None or dict(thread=name, k=int, then='leave'|'close'|'runner')"""
         A = self.A
         box = {}
@@ -309,6 +309,8 @@ class CacheHarness:
                 s.spawn(thread_body(ti, spec), f'T{ti}')
 
         def pre(s):
+            if delays and hasattr(s, 'line_delays'):
+                s.line_delays = [dict(d) for d in delays]
             if inject is not None:
                 def stopper():
                     try:
@@ -508,7 +510,8 @@ def judge_c05_prompt(v: View, res: CaseResult, tag='C05'):
             continue
         # subtract busy intervals
         gaps = [(t0, t1)]
-        for a, b in busy[c['key']]:
+        # an injected preemption of any thread is the harness's doing, not waiting caused by the cache
+        for a, b in busy[c['key']] + list(getattr(v, 'delays', ())):
             ng = []
             for g0, g1 in gaps:
                 if b <= g0 or a >= g1:
@@ -523,8 +526,9 @@ def judge_c05_prompt(v: View, res: CaseResult, tag='C05'):
             if g1 - g0 <= EPS:
                 continue
             res.stats['idle_waits_judged'] += 1
-            excused = any(lp != c['loop'] and d - EPS <= g0 and g1 <= d + SAFETY + EPS
-                          for d, lp, _ in v.deaths)
+            # the safety net bounds one wait by 60 s from the moment the waiter began it, which is no earlier
+            # than the start of the idle interval: allowed iff a loop died before it and it is no longer than 60 s
+            excused = (g1 - g0) <= SAFETY + EPS and any(lp != c['loop'] and d - EPS <= g0 for d, lp, _ in v.deaths)
             if excused:
                 res.stats['allowed_safety_net_stall'] += 1
             else:
@@ -643,6 +647,13 @@ class CacheCheck(Check):
                 strat = make_strategy(rng)
                 inject = {'thread': rng.choice(['T0', 'T1']), 'k': k,
                           'then': rng.choice(['leave', 'close', 'runner'])}
+        self._delays = None
+        if fam != 'sweep' and rng.random() < 0.2:
+            # a long preemption (timed delay) of one loop thread at one source line of the cache wrapper
+            dn = [d for d, _ in scen['inv'] if isinstance(d, float)]
+            self._delays = [{'thread': f'T{rng.randrange(len(scen["threads"]))}', 'qual': 'threadsafe_async_cache',
+                             'nth': rng.randint(1, 70),
+                             'd': rng.choice([U, D0, 4 * D0, (dn[0] if dn else D0) + U, 61.0])}]
         return scen, strat, inject
 
     def run_real(self, case):
@@ -680,7 +691,7 @@ class CacheCheck(Check):
         if case['fam'] == 'real':
             return self.run_real(case)
         scen, strat, inject = self.build(case)
-        r = self.h.run(scen, strat, inject)
+        r = self.h.run(scen, strat, inject, delays=self._delays)
         res = CaseResult()
         res.sig = r.signature
         res.cov = {k: c for k, c in r.sched.line_cov.items() if k[0].startswith(self.anchors)}
@@ -701,6 +712,9 @@ class CacheCheck(Check):
         st[f'strategy_{strat.kind}'] += 1
         if any(e[0] == 'inject' for e in r.log):
             st['injected_loop_stop'] += 1
+        if r.sched.delays_fired:
+            st['long_delay_injected'] += 1
+        v.delays = [(t0, t0 + d) for _, _, d, t0 in r.sched.delays_fired]
         classify_waits(v, res)
         moved = any(q.endswith('_wrapper') for q, _ in r.sched.switch_lines)
         if self.reprobe:
